@@ -38,6 +38,16 @@ func (y yieldStore) Save(id fix.StorageID, m simplefixgo.SendingMessage, seq int
 	return y.Storage.Save(id, m, seq)
 }
 
+// slowCounter: a counter store that takes (virtual) time - a database round trip - to hand out a number.  Senders
+// queue up behind it; a sending time taken before the number is assigned is then visibly older than the send.
+type slowCounter struct{ *memory.Storage }
+
+func (y slowCounter) GetNextSeqNum(id fix.StorageID) (int, error) {
+	n, err := y.Storage.GetNextSeqNum(id)
+	time.Sleep(5 * time.Millisecond)
+	return n, err
+}
+
 func pint(p map[string]any, k string) int {
 	switch v := p[k].(type) {
 	case int:
@@ -79,7 +89,11 @@ func c05Scenario(name string, p map[string]any) *schedScenario {
 			if extra == "hb" {
 				hb = 1
 			}
-			w = newWorld(wcfg{Role: role, Buf: buf, HbMin: 1, HbMax: 60, HbInt: hb, Store: st, CS: yieldStore{st}, MS: yieldStore{st}})
+			var cs session.CounterStorage = yieldStore{st}
+			if extra == "slow-counter" {
+				cs = slowCounter{st}
+			}
+			w = newWorld(wcfg{Role: role, Buf: buf, HbMin: 1, HbMax: 60, HbInt: hb, Store: st, CS: cs, MS: yieldStore{st}})
 			w.h.HandleOutgoing(simplefixgo.AllMsgTypes, func(m simplefixgo.SendingMessage) bool { vsched.Preempt(); return true })
 			w.logonOK(hb)
 			if extra == "second-session" {
@@ -393,7 +407,7 @@ func runC05(R *vlib.Out) {
 		}
 		cfgs = append(cfgs, cfg{role, 1, 2, 2, "none", bound}, cfg{role, 0, 3, 1, "none", bound},
 			cfg{role, 1, 2, 1, "testreq", bound}, cfg{role, 0, 2, 1, "reject", bound}, cfg{role, 1, 2, 1, "hb", bound},
-			cfg{role, 1, 2, 1, "second-session", bound}, cfg{role, 10, 2, 3, "same-object", bound}, cfg{role, 1, 1, 3, "same-object", bound})
+			cfg{role, 1, 3, 1, "slow-counter", bound}, cfg{role, 1, 2, 1, "second-session", bound}, cfg{role, 10, 2, 3, "same-object", bound}, cfg{role, 1, 1, 3, "same-object", bound})
 	}
 	for i, c := range cfgs {
 		if vlib.Expired() {
